@@ -1,10 +1,11 @@
 (* Extraction of the aggregate model of C02 for the correspondence check. ExtrOcamlBasic only. *)
 From V.lib Require Import Base.
 From V.c05 Require Import C05Model C05FragModel C05CodecModel.
-From V.c02 Require Import C02AggModel C02AggSencModel C02AggCapModel.
+From V.c02 Require Import C02AggModel C02AggSencModel C02AggCapModel C02AggWfModel.
 Require Import ExtrOcamlBasic.
 Separate Extraction
   nat sample trun tfhd tfdt mdat obox tchild mchild afrag aseg fchild afile aop aout
   afrag_step aseg_step ainit_step afile_step run_hist ob_wf afile_seg_mode
   senc senc_create senc_add senc_size senc_encode_w senc_encode_sw senc_info senc_decode senc_parse
-  xop afrag_xstep aseg_xstep ainit_xstep afile_xstep payload_starts out_payload_starts.
+  xop afrag_xstep aseg_xstep ainit_xstep afile_xstep payload_starts out_payload_starts
+  x_afrag_wf x_aseg_wf x_obs_wf x_afile_wf x_senc_ok.
